@@ -333,6 +333,40 @@ Definition then_step (p : prog) (s : step) : prog :=
 
 Definition chain (src : prog) (steps : list step) : prog := fold_left then_step steps src.
 
+(* ------------------------------------------------------------------ one step applied to a finished predecessor *)
+(* The PThen case of [run] as a function of the predecessor's outcome (proofs/PipeProofs.v then_unfold); used by
+   Lazy.v, where a chain is first built and later started. *)
+
+(* the executor the step's core holds, and the Result that reaches it *)
+Definition exec_of (a : attach) (oq : out) : exec := match a with AOn e => e | _ => o_exec oq end.
+Definition arrives (a : attach) (oq : out) : res := seq_input a (exec_of a oq) (o_res oq).
+
+(* the parameter classes that compile in a world of value type t *)
+Definition par_ok (p : pclass) (t : ty) : bool :=
+  match p, t with
+  | PValue, TVoid => false
+  | (PNone | PUnit), TInt => false
+  | _, _ => true
+  end.
+
+Definition step_result (oq : out) (id : nat) (par : pclass) (a : attach) (rt : ty) (body : input -> outcome) : option out :=
+  let ex := exec_of a oq in
+  let r := arrives a oq in
+  if par_ok par (o_ty oq) then
+    match invoked par r with
+    | None => Some (Out r ex rt (o_evs oq))
+    | Some i =>
+        match body i with
+        | RetAsync k p' =>
+            match run p' with
+            | Some oi => Some (Out (o_res oi) ex rt (o_evs oq ++ Ev id ex (is_call a) i :: o_evs oi))
+            | None => None
+            end
+        | o' => Some (Out (done_result o') ex rt (o_evs oq ++ [Ev id ex (is_call a) i]))
+        end
+    end
+  else None.
+
 (* -------------------------------------------------------------------------------- static typing *)
 (* The part of the C++ type system the generated table relies on; [prog_ty p = Some (w, t)] iff the C++
    expression denoted by p compiles and has handle kind w and value type t. *)
